@@ -161,6 +161,21 @@ CLAIMED["C17"] = (
     "and that `synrbl benchmark` counts every solved row whose expected reaction is a respelled permutation as correct.",
     "5/C17", "")
 
+CLAIMED["C15"] = (
+    "TLA+ model of the two regular expressions over bracket-atom forms (AtomMap.tla) checked exhaustively by TLC; every "
+    "model state rendered as a molecule and passed to the real remove_atom_mapping; corpus / periodic-table inputs and "
+    "pipeline outputs validated by TLC (AtomMap_Trace.tla, API_Trace.tla)",
+    "TLC enumerates every bracket atom over 40 element symbols (incl. the two-letter symbols sharing a first letter "
+    "with an organic-subset symbol), isotope, aromatic spelling, chirality mark, H count 0..4, charge, map class, in "
+    "bond contexts 0..6 and checks that (element, isotope, charge, chirality, total H) is preserved and no map "
+    "survives - with the valence guard for all forms, and as built for all forms except exactly the hypervalent "
+    "hydrides (listed as a known finding). Every non-aromatic model state is rendered in several bond contexts and, "
+    "when RDKit accepts it as a closed-shell molecule, passed to the real function; identity with the map-cleared "
+    "input is judged by the RDKit oracle and the verdict by TLC, which also compares the model's bracket prediction "
+    "(drift). Mapped corpus reactions, random map assignments, the whole periodic table, ring / chiral / isotope "
+    "templates and every row of the shared pipeline recording (no ':n' in reaction / input_reaction) are included.",
+    "5/C15", "")
+
 PENDING_REASON = "check not built yet in this round (planned, see DESIGN.md section 5); not claimed until it passes on the unchanged tree"
 
 
